@@ -39,9 +39,11 @@ pub fn suite(out: &mut Out, seed: u64, thorough: bool) {
 	out.line("C 0 flags malaw");
 	let lens: Vec<u64> = if thorough { (1..max.min(255)).collect() } else { vec![1, 2, 3, 4, 5, 8, 13, 31, 100, 127, 254] };
 	for kind in KINDS {
+		let mut deck = gen::Deck::values();
+		let mut dr = rng.fork(7919 + kind.len() as u64);
 		for &len in &lens {
 			let mut r = rng.fork(len * 131 + kind.len() as u64);
-			let class = gen::CLASSES[(len as usize + kind.len()) % gen::CLASSES.len()];
+			let class = deck.draw(&mut dr);
 			let n = 120 + 2 * len as usize;
 			let xs: Vec<V> = gen::stream(&mut r, n, class).into_iter().map(|x| x as V).collect();
 			let ys: Vec<V> = gen::stream(&mut r, n, "walk").into_iter().map(|x| x as V).collect();
